@@ -632,6 +632,7 @@ func main() {
 	defer base.DrainPool()
 	worlds["main"] = c10h.MainWorld(base, r.Thorough())
 	worlds["std"] = c10h.StdWorld(base)
+	worlds["wit"] = c10h.WitWorld(base)
 
 	if r.ReplayPath != "" {
 		var rp replay
@@ -662,13 +663,13 @@ func main() {
 		cfgs = []bfsCfg{
 			{"main", "default", 5, 3}, {"main", "default", 6, 2}, {"main", "nopriority", 4, 2}, {"main", "rejectrbf", 4, 2},
 			{"main", "orphans0", 4, 2}, {"main", "orphans1", 4, 2}, {"main", "orphans2", 4, 2},
-			{"std", "standard", 5, 2}, {"std", "std-orphan1", 4, 2},
+			{"std", "standard", 5, 2}, {"std", "std-orphan1", 4, 2}, {"wit", "standard", 5, 2},
 		}
 	} else {
 		cfgs = []bfsCfg{
 			{"main", "default", 4, 2}, {"main", "nopriority", 3, 1}, {"main", "rejectrbf", 3, 1},
 			{"main", "orphans0", 3, 1}, {"main", "orphans1", 3, 1}, {"main", "orphans2", 3, 1},
-			{"std", "standard", 3, 2}, {"std", "std-orphan1", 3, 1},
+			{"std", "standard", 3, 2}, {"std", "std-orphan1", 3, 1}, {"wit", "standard", 4, 1},
 		}
 	}
 	if v := os.Getenv("C10_DEV_CFG"); v != "" { // development aid only: world,policy,depth,maxBlock
